@@ -29,7 +29,7 @@ from renormalizer.mps.matrix import asnumpy
 from renormalizer.utils.configs import OFS
 
 # ----------------------------------------------------------------------------- models
-def model_spin(n, qn, rng, enc="01", cplx=False):
+def model_spin(n, qn, rng, enc="01", cplx=False, lr=False):
     # enc "01": quantum number = number of flipped spins (never negative; Mps.random / TTNS.random skip every block
     # above qntot and fail for negative totals); enc "pm": +1 / -1 per site with non-negative totals only
     basis = [BasisHalfSpin(i, sigmaqn=([0, 1] if enc == "01" else [1, -1]) if qn else [0, 0]) for i in range(n)]
@@ -39,7 +39,12 @@ def model_spin(n, qn, rng, enc="01", cplx=False):
         d = float(rng.uniform(-1.2, 1.2))
         terms += [Op("sigma_+ sigma_-", [i, i + 1], 2 * j), Op("sigma_- sigma_+", [i, i + 1], 2 * j),
                   Op("sigma_z sigma_z", [i, i + 1], j * d)]
-    if n > 2 and rng.random() < 0.3:           # one longer-range coupling
+    if lr:                                      # random couplings between all pairs: strongly entangled, truncation matters
+        for a in range(n):
+            for b in range(a + 2, n):
+                j = float(rng.normal())
+                terms += [Op("sigma_+ sigma_-", [a, b], j), Op("sigma_- sigma_+", [a, b], j), Op("sigma_z sigma_z", [a, b], float(0.5 * rng.normal()))]
+    elif n > 2 and rng.random() < 0.3:         # one longer-range coupling
         a, b = sorted(rng.choice(n, 2, replace=False).tolist())
         if b - a > 1:
             j = float(rng.uniform(-0.5, 0.5))
@@ -64,10 +69,10 @@ def model_spin(n, qn, rng, enc="01", cplx=False):
     return Model(basis, terms)
 
 
-def model_holstein(nmol, nbas, rng):
+def model_holstein(nmol, nbas, rng, qn=True):
     basis, terms = [], []
     for i in range(nmol):
-        basis.append(BasisSimpleElectron("e%d" % i))
+        basis.append(BasisSimpleElectron("e%d" % i, sigmaqn=[0, 1] if qn else [0, 0]))
         basis.append(BasisSHO("v%d" % i, omega=float(rng.uniform(0.5, 1.5)), nbas=nbas))
     for i in range(nmol):
         terms.append(Op(r"a^\dagger a", "e%d" % i, float(rng.uniform(-0.5, 0.5))))
@@ -101,9 +106,9 @@ def model_qc(norb, rng):
 def build_model(case, rng):
     k = case["kind"]
     if k == "spin":
-        return model_spin(case["n"], case.get("qn", True), rng, case.get("enc", "01"), bool(case.get("cplx")))
+        return model_spin(case["n"], case.get("qn", True), rng, case.get("enc", "01"), bool(case.get("cplx")), bool(case.get("lr")))
     if k == "holstein":
-        return model_holstein(case["nmol"], case["nbas"], rng)
+        return model_holstein(case["nmol"], case["nbas"], rng, case.get("qn", True))
     if k == "qc":
         return model_qc(case["norb"], rng)
     raise ValueError(k)
@@ -360,6 +365,9 @@ def run_case(case):
         # sector: the quantum number of a random product state (never empty); "none" -> everything
         if case.get("sector") == "rand":
             qn = [abs(int(x)) for x in tot[int(rng.integers(len(tot)))].tolist()]
+        elif case.get("sector") == "mid":          # the largest sector
+            vals, cnt = np.unique(tot, axis=0, return_counts=True)
+            qn = [int(x) for x in vals[int(np.argmax(cnt))]]
         elif case.get("sector") is None:
             qn = [0] * tot.shape[1]
         else:
@@ -386,6 +394,7 @@ def run_case(case):
         out["exact"] = ref[:6].tolist()
         out["sector_dim"] = int(sector0.sum())
         out["hilbert_dim"] = int(len(hd0))
+        out["pdims"] = [int(b.nbas) for b in model.basis]
         out["qn"] = qn
         mmax0 = case.get("m_init", 8)
         qarg = qn if len(qn) > 1 else qn[0]
